@@ -650,12 +650,17 @@ class Poly2d:
         self._A = A
         self._safe_to_grid = False
 
-        sx, zx, tx, zy, sy, ty, *_ = A
+        _, zx, _, zy, *_ = A
         if abs(zx) < tol and abs(zy) < tol:
-            self._norm = lambda x, y: (np.polyval([sx, tx], x), np.polyval([sy, ty], y))
             self._safe_to_grid = True
-        else:
-            self._norm = lambda x, y: A * (x, y)
+
+    def _norm(self, x: Any, y: Any) -> Any:
+        # a method rather than a closure stored on the instance: keeps Poly2d
+        # (and the GCP mappings / geoboxes caching it) picklable
+        if self._safe_to_grid:
+            sx, _, tx, _, sy, ty, *_ = self._A
+            return (np.polyval([sx, tx], x), np.polyval([sy, ty], y))
+        return self._A * (x, y)
 
     def __call__(self, x: Any, y: Any = None) -> Any:
         """
